@@ -12,7 +12,8 @@
 
    Setup (JSON, IOEnv.TRACE_FILE) =
      [programs |-> <<dispatcher, group>>, maps, progsReg, progsUnreg, g, cmap, pmap, countersOff,
-      countersSize, sterile, ref, terms, props0, wkcOff, cbs, K, variants, his, foreign]        *)
+      countersSize, sterile, ref, terms, props0, wkcOff, cbs, K, variants, his, foreign,
+      progmap (number of the program array), groups (other slots to compare), gcbs (counter values for that)]  *)
 EXTENDS Ebpf, FastGroupFrame, Json, IOUtils
 R == INSTANCE EbpfRun WITH cid <- 0
 
@@ -123,6 +124,57 @@ ForeignRun(f, k, res) == ForeignJudge(f, k, res, Act(res), IF IsOther(f) THEN Dr
 ForeignCase(f, k) == ForeignRun(f, k, R!Result(k))
 ForeignVerdict(f, cb, reg) == ForeignCase(f, CaseOf(f, cb, <<7, 0, 0>>, 165, reg, TRUE))
 
+(* ---- a group registered at another slot of the program table -------------------------------- *)
+(* FastEtherCat.register_sync_group hands out any slot 0 .. 63.  The histories are explored for ONE
+   group number (Setup.g); they are the histories of every group provided a delivery does for a
+   group registered at slot h exactly what it does for Setup.g: same action, same step of the
+   group's own counter (the word at slot h), same index byte written, the group's program run or
+   not, the same verdict of the per-pass requirement.  That is judged here for the group numbers
+   in Setup.groups (the edges 0, 62, 63 of the table and some in between; all 64 in the thorough
+   tier), for every index distance and variant at the counter values Setup.gcbs: the frame names h
+   in its identification datagram, the program array holds the group's program at slot h only, and
+   every other counter of the map holds a different value (165), so that using a neighbour's slot
+   shows.                                                                                          *)
+GOffOf(h) == Setup.countersOff + 4 * h
+FrameOfGroup(f, h) == [f EXCEPT ![19] = h, ![20] = 0, ![21] = 0, ![22] = 0]
+CountersOfGroup(h, cb) ==
+    SubSeq([i \in 1 .. Setup.countersSize |->
+               IF i = GOffOf(h) + 1 THEN cb ELSE IF i \in GOffOf(h) + 2 .. GOffOf(h) + 4 THEN 0 ELSE 165],
+           1, Setup.countersSize)
+Slots(h, reg) == SubSeq([i \in 1 .. Setup.maps[Setup.progmap].max |-> IF reg /\ i = h + 1 THEN 2 ELSE 0],
+                        1, Setup.maps[Setup.progmap].max)
+ProgsOfGroup(h, reg) == SubSeq([m \in 1 .. Len(Setup.maps) |-> IF m = Setup.progmap THEN Slots(h, reg) ELSE <<>>],
+                               1, Len(Setup.maps))
+CaseOfGroup(h, pkt, cb, reg, out) ==
+    [programs |-> Setup.programs, entry |-> 1, maps |-> Setup.maps, progs |-> ProgsOfGroup(h, reg),
+     orc |-> OrcOf, pkt |-> FrameOfGroup(pkt, h),
+     arr |-> <<[fd |-> Setup.cmap, bytes |-> CountersOfGroup(h, cb)], [fd |-> Setup.pmap, bytes |-> PropsWith(out)]>>,
+     hash |-> <<>>, fuel |-> 2000]
+RowOf(o) == [act |-> o.act, cb2 |-> o.cb2, ix2 |-> o.ix2, ran |-> o.ran, en2 |-> o.en2, etok |-> o.etok,
+             ok21 |-> o.ok21, others |-> o.others]
+GroupOutcome(h, k, res, v, e0, e1, ran) ==
+    [act |-> Act(res), cb2 |-> res.arr[1][GOffOf(h) + 1],
+     ix2 |-> IF Len(res.pkt) > IndexByte THEN res.pkt[IndexByte + 1] ELSE -1,
+     ran |-> ran, en2 |-> AnyEnabled(res.pkt, Ref),
+     etok |-> Len(res.pkt) >= 28 /\ EtherType(res.pkt) = Data0AsEtherType(k.pkt),
+     ok21 |-> PassOK(k.pkt, res.pkt, Ref, Terms, ran, v.out, e0, e1),
+     others |-> \A i \in 1 .. Setup.countersSize :
+                    i \in GOffOf(h) + 1 .. GOffOf(h) + 4 \/ res.arr[1][i] = k.arr[1].bytes[i],
+     st |-> res.st, pktin |-> k.pkt, pkt |-> res.pkt, ctrs0 |-> k.arr[1].bytes, ctrs |-> res.arr[1],
+     props0 |-> k.arr[2].bytes, props |-> res.arr[2]]
+GroupRes(h, k, res, v) == GroupOutcome(h, k, res, v, Word4(k.arr[2].bytes, Setup.wkcOff),
+                                       Word4(res.arr[2], Setup.wkcOff), res.tail > 0)
+GroupK(h, k, v) == GroupRes(h, k, R!Result(k), v)
+GroupEntry(h, cb, ix, vi) ==
+    GroupK(h, CaseOfGroup(h, FrameFor(ix, Setup.variants[vi].en), cb, Setup.variants[vi].reg, Setup.variants[vi].out),
+           Setup.variants[vi])
+GroupJudge(h, o, base) == [h |-> h, same |-> RowOf(o) = base, row |-> RowOf(o), out |-> o]
+GroupCheckB(cb, ix, vi, base) ==
+    [base |-> base,
+     groups |-> [j \in 1 .. Len(Setup.groups) |->
+                    GroupJudge(Setup.groups[j], GroupEntry(Setup.groups[j], cb, ix, vi), base)]]
+GroupCheck(cb, ix, vi) == GroupCheckB(cb, ix, vi, RowOf(Entry(cb, ix, vi, <<0, 0, 0>>)))
+
 (* ---- enumeration: two levels so that TLC's workers share the work --------------------------- *)
 ND == 2 * Setup.K + 2                       \* distances 0 .. 2K behind the counter, plus the index byte 0
 NV == Len(Setup.variants)
@@ -130,13 +182,15 @@ IxOf(cb, d) == IF d = ND - 1 THEN 0 ELSE (cb + 256 - d) % 256
 VARIABLE job
 Init == job = <<0, 0, 0>>
 Next == \/ /\ job[1] = 0
-           /\ \E c \in 1 .. Len(Setup.cbs) + 2 : job' = <<1, c, 0>>
+           /\ \E c \in 1 .. Len(Setup.cbs) + 2 + Len(Setup.gcbs) : job' = <<1, c, 0>>
         \/ /\ job[1] = 1 /\ job[2] <= Len(Setup.cbs)
            /\ \E n \in 0 .. ND * NV - 1 : job' = <<2, job[2], n>>
         \/ /\ job[1] = 1 /\ job[2] = Len(Setup.cbs) + 1                  \* upper counter bytes do not matter
            /\ \E n \in 1 .. Len(Setup.his) : job' = <<3, n, 0>>
         \/ /\ job[1] = 1 /\ job[2] = Len(Setup.cbs) + 2
            /\ \E n \in 1 .. Len(Setup.foreign) : job' = <<4, n, 0>>
+        \/ /\ job[1] = 1 /\ job[2] > Len(Setup.cbs) + 2                  \* other slots of the program table
+           /\ \E n \in 0 .. ND * NV - 1 : job' = <<5, job[2] - Len(Setup.cbs) - 2, n>>
 Emit ==
     CASE job[1] = 2 ->
            LET cb == Setup.cbs[job[2]]  d == job[3] \div NV  vi == (job[3] % NV) + 1 IN
@@ -147,5 +201,8 @@ Emit ==
       [] job[1] = 4 ->
            LET f == Setup.foreign[job[2]] IN
            PrintT(<<"F", job[2], ToJson(ForeignVerdict(f.pkt, f.cb, f.reg))>>)
+      [] job[1] = 5 ->
+           LET cb == Setup.gcbs[job[2]]  d == job[3] \div NV  vi == (job[3] % NV) + 1 IN
+           PrintT(<<"G", cb, IxOf(cb, d), vi, ToJson(GroupCheck(cb, IxOf(cb, d), vi))>>)
       [] OTHER -> TRUE
 =============================================================================
